@@ -43,6 +43,10 @@ QUICK = [
     ("sc", [[2, 0, 0], [0, 2, 0], [0, 0, 1]], 1, 24),
     ("sc", [[2, 0, 0], [0, 2, 0], [0, 0, 2]], 2, 24),
     ("sc", [[1, 1, 0], [-1, 1, 0], [0, 0, 2]], 0, 20),
+    # left-handed descriptions (negative determinant; the size is |det|)
+    ("sc", [[0, 2, 0], [2, 0, 0], [0, 0, 1]], 1, 20),
+    ("hcp", [[0, 2, 0], [2, 0, 0], [0, 0, 1]], 1, 20),
+    ("fcc", [[1, -1, -1], [-1, 1, -1], [-1, -1, 1]], 0, 16),
     ("fcc", [[2, 0, 0], [0, 2, 0], [0, 0, 2]], 1, 26),
     ("fcc", [[-1, 1, 1], [1, -1, 1], [1, 1, -1]], 2, 20),
     ("fcc", [[2, 1, 0], [0, 2, 1], [1, 0, 1]], 0, 20),
